@@ -15,14 +15,17 @@ def main():
         meta = json.loads(m.read_text())
         c = meta.get("confirmed", {})
         checks = c.get("checks", {})
-        caught = [k for k, v in checks.items() if v.get("exit") == 1]
-        missed = [k for k, v in checks.items() if v.get("exit") == 0]
+        # `caught_by` is authoritative (an exit status 1 that turned out to be a false alarm of the check on the
+        # unchanged tree, or the effect of a different defect, is explained in `first_run_note`)
+        caught = c.get("caught_by") if "caught_by" in c else [k for k, v in checks.items() if v.get("exit") == 1]
+        missed = [k for k in checks if k not in caught]
         later = meta.get("after_strengthening", {})
         rows.append((d.name, meta.get("property"), (meta.get("summary") or "")[:160].replace("|", "/"),
                      (meta.get("needs") or "")[:160].replace("|", "/") if isinstance(meta.get("needs"), str) else str(meta.get("needs"))[:160],
                      c.get("demo_exit_unchanged"), c.get("demo_exit_with_change"), (c.get("repo_tests_with_change") or "")[:24],
                      ", ".join(caught) or "-", ", ".join(missed) or "-",
-                     "; ".join(f"{k}: {v}" for k, v in later.items()) or "-"))
+                     ("; ".join(f"{k}: {v}" for k, v in later.items()) or "-")
+                     + (f" [first run: {c['first_run_note']}]" if c.get("first_run_note") else "")))
     out = ["# Independently seeded changes", "",
            "Each directory holds `patch.diff` (the change, never committed to /repo), `demo.py` (the sub-agent's demonstration:",
            "exit 1 with the change, 0 without), `agent_meta.json` (the sub-agent's own notes) and `meta.json` (what was confirmed",
